@@ -140,4 +140,30 @@ MUTANTS = [
  {"id": "c17-set-permissions-no-admin-check", "props": ["C17"], "file": "contracts/cw1-subkeys/src/contract.rs",
   "old": "    let cfg = ADMIN_LIST.load(deps.storage)?;\n    ensure!(cfg.is_admin(&info.sender), ContractError::Unauthorized {});\n\n    let spender_addr = deps.api.addr_validate(&spender)?;\n    ensure_ne!(\n        info.sender,\n        spender_addr,\n        ContractError::CannotSetOwnAccount {}\n    );\n    PERMISSIONS.save",
   "new": "    let cfg = ADMIN_LIST.load(deps.storage)?;\n    ensure!(cfg.is_admin(&info.sender) || !cfg.mutable, ContractError::Unauthorized {});\n\n    let spender_addr = deps.api.addr_validate(&spender)?;\n    ensure_ne!(\n        info.sender,\n        spender_addr,\n        ContractError::CannotSetOwnAccount {}\n    );\n    PERMISSIONS.save"},
+ # ---- C09
+ {"id": "c09-at-height-off-by-one", "props": ["C09"], "file": "contracts/cw4-group/src/contract.rs",
+  "old": "        Some(h) => MEMBERS.may_load_at_height(deps.storage, &addr, h),",
+  "new": "        Some(h) => MEMBERS.may_load_at_height(deps.storage, &addr, h.saturating_add(1)),"},
+ {"id": "c09-removal-keeps-total", "props": ["C09"], "file": "contracts/cw4-group/src/contract.rs",
+  "old": "            total = total.checked_sub(Uint64::from(weight))?;\n            MEMBERS.remove",
+  "new": "            if diffs.len() < 3 { total = total.checked_sub(Uint64::from(weight))?; }\n            MEMBERS.remove"},
+ {"id": "c09-total-key-renamed", "props": ["C09"], "file": "contracts/cw4-group/src/state.rs",
+  "old": "pub const TOTAL: SnapshotItem<u64> = SnapshotItem::new(\n    TOTAL_KEY,",
+  "new": "pub const TOTAL: SnapshotItem<u64> = SnapshotItem::new(\n    \"total_weight\","},
+ {"id": "c09-total-saved-at-next-height", "props": ["C09"], "file": "contracts/cw4-group/src/contract.rs",
+  "old": "    TOTAL.save(deps.storage, &total.u64(), height)?;\n    Ok(MemberChangedHookMsg { diffs })",
+  "new": "    TOTAL.save(deps.storage, &total.u64(), height + 1)?;\n    Ok(MemberChangedHookMsg { diffs })"},
+ # ---- C14
+ {"id": "c14-update-members-no-admin-check", "props": ["C14"], "file": "contracts/cw4-group/src/contract.rs",
+  "old": "    ADMIN.assert_admin(deps.as_ref(), &sender)?;\n\n    let mut total",
+  "new": "    if !to_remove.is_empty() { ADMIN.assert_admin(deps.as_ref(), &sender)?; }\n\n    let mut total"},
+ {"id": "c14-diff-old-read-after-write", "props": ["C14"], "file": "contracts/cw4-group/src/contract.rs",
+  "old": "            diffs.push(MemberDiff::new(add.addr, old, Some(add.weight)));",
+  "new": "            diffs.push(MemberDiff::new(add.addr, old.map(|_| add.weight), Some(add.weight)));"},
+ {"id": "c14-hooks-notified-twice", "props": ["C14"], "file": "contracts/cw4-group/src/contract.rs",
+  "old": "    Ok(Response::new()\n        .add_submessages(messages)\n        .add_attributes(attributes))",
+  "new": "    let again = if messages.len() > 1 { vec![messages[0].clone()] } else { vec![] };\n    Ok(Response::new()\n        .add_submessages(messages)\n        .add_submessages(again)\n        .add_attributes(attributes))"},
+ {"id": "c14-removal-diff-skipped", "props": ["C14"], "file": "contracts/cw4-group/src/contract.rs",
+  "old": "            diffs.push(MemberDiff::new(remove, Some(weight), None));",
+  "new": "            if weight != 0 { diffs.push(MemberDiff::new(remove, Some(weight), None)); }"},
 ]
